@@ -112,7 +112,7 @@ def run(rep):
     reqs, meta = [], []
     for d in fam:
         n = len(d)
-        stamps = [tuple(rng.randrange(n) for _ in range(n)) for _ in range(120 if not thorough else 1500)]
+        stamps = [tuple(rng.randrange(n) for _ in range(n)) for _ in range(120 if not thorough else 400)]
         queries = [(a, [b]) for a in range(n) for b in range(n) if a != b]
         reqs.append({"fn": "lcas_batch", "dag": dag_str(d), "stamps": [list(x) for x in stamps], "queries": queries})
         meta.append((d, stamps, queries))
@@ -143,8 +143,9 @@ def run(rep):
     rep.extra["chain_octopus_evaluations"] = nfam
     # random larger DAGs through the repository API
     reqs, meta, lines = [], [], []
-    for _ in range(40 if not thorough else 600):
-        n = rng.choice([6, 10, 25, 60] + ([150, 300] if thorough else [120]))
+    for k in range(40 if not thorough else 160):
+        # (the extracted model needs about a second per query on a 120-commit DAG: a dozen of those, the rest smaller)
+        n = rng.choice([6, 10, 25, 60] + ([120] if k < 12 else []))
         d = random_dag(rng, n)
         mode = rng.choice(["mono", "skew", "neg", "equal"])
         stamps = [i * 10 for i in range(n)] if mode == "mono" else [rng.randrange(0, 50) for _ in range(n)] if mode == "skew" \
@@ -188,9 +189,9 @@ def run(rep):
             rep.case("independent", key=(dag_str(d), tuple(s)), nontrivial=True)
     # ---- history walks
     reqs, meta = [], []
-    nw = 60 if not thorough else 900
+    nw = 60 if not thorough else 400
     for k in range(nw):
-        n = rng.choice([3, 6, 9, 14, 30] + ([80, 200] if thorough else []))
+        n = rng.choice([3, 6, 9, 14, 30] + ([80] if thorough else []))
         d = random_dag(rng, n)
         mode = rng.choice(["mono", "mono", "ties", "equal", "skew"])
         if mode == "skew":
@@ -266,7 +267,7 @@ def run(rep):
     small = []
     for n in range(1, 5):
         small += list(all_dags(n))
-    pool = small + [random_dag(rng, rng.choice([6, 9, 14])) for _ in range(40 if not thorough else 600)]
+    pool = small + [random_dag(rng, rng.choice([6, 9, 14])) for _ in range(40 if not thorough else 300)]
     for d in (rng.sample(pool, min(len(pool), 120)) if not thorough else pool):
         n = len(d)
         stamps = rng.sample(range(100, 100 + 3 * n + 5), n)          # pairwise distinct: the pop order is then fully determined
